@@ -264,7 +264,19 @@ class GarbageCollector:
         return deleted_count
 
     def _normalize_path(self, path: str) -> str:
-        """Normalize path to be relative to table root and strip leading slashes."""
-        if path.startswith(self.table_path):
-            path = path[len(self.table_path):]
-        return path.lstrip("/")
+        """Normalize path to be relative to table root and strip leading slashes.
+
+        Table-relative spellings ('data/x', '/data/x', 'metadata/...') are what
+        this library records, so they win: a table location that happens to be
+        a string prefix of them ('data', '/data', 'm', ...) must never be cut
+        out of the name - that made every live file look like an orphan. Only
+        a path that is not table-relative and starts with the table location
+        plus a separator (legacy absolute form) has the location stripped.
+        """
+        relative = path.lstrip("/")
+        if relative.startswith(("data/", "metadata/")):
+            return relative
+        base = self.table_path.rstrip("/")
+        if base and path.startswith(base + "/"):
+            return path[len(base):].lstrip("/")
+        return relative
